@@ -454,6 +454,16 @@ mod stack_model {
             model.layers.pop();
             r?;
         }
+        // (effects cannot be undone on the real runtime, so they come last, counters before assignments: a counter name
+        //  must be observed while no layer defines it)
+        for (k, v) in [("a", 5i64), ("b", 6i64)] {
+            rt.set_index(k.into(), Value::scalar(v));
+            model.counters.insert(k, v);
+            trace.push(format!("counter {k}={v}"));
+            let r = explore(rt, model, depth - 1, trace, stats);
+            trace.pop();
+            r?;
+        }
         // assign-global k v : lands in the nearest enclosing global layer
         for (k, v) in [("a", 1i64), ("b", 2i64)] {
             let gi = {
@@ -478,14 +488,6 @@ mod stack_model {
             // value when there was one, else stop exploring siblings that depend on absence: we re-create state by
             // only assigning names in increasing order along a path; siblings after this see the assignment too.
             let _ = saved;
-            r?;
-        }
-        for (k, v) in [("a", 5i64)] {
-            rt.set_index(k.into(), Value::scalar(v));
-            model.counters.insert(k, v);
-            trace.push(format!("counter {k}={v}"));
-            let r = explore(rt, model, depth - 1, trace, stats);
-            trace.pop();
             r?;
         }
         Ok(())
